@@ -8,6 +8,7 @@ pub mod crash;
 pub mod c04;
 pub mod c05;
 pub mod c06;
+#[cfg(feature = "small")]
 pub mod c07;
 pub mod c08;
 pub mod c09;
@@ -31,6 +32,7 @@ pub fn by_id(id: &str) -> Option<Box<dyn Monitor>> {
         "C04" => Some(Box::new(c04::C04)),
         "C05" => Some(Box::new(c05::C05)),
         "C06" => Some(Box::new(c06::C06)),
+        #[cfg(feature = "small")]
         "C07" => Some(Box::new(c07::C07)),
         "C08" => Some(Box::new(c08::C08)),
         "C09" => Some(Box::new(c09::C09)),
